@@ -175,7 +175,7 @@ func (fr *Frame) callStatic(callee *ssa.Function, bindings []Val, args []Val, st
 		defer func() {
 			for _, b := range backs {
 				nv := vc.loadFlat(st, b.cell, b.t)
-				vc.sc.Assume(vc.wellTyped(nv, st), "")
+				vc.sc.Assume(mkImplies(reach, vc.wellTyped(nv, st)), "")
 				fr.storeTo(b.lv, nv, st)
 			}
 		}()
